@@ -81,7 +81,10 @@ func (f *FloatSlice) GetSlice(slice Slice) (Object, *Error) {
 	if err != nil {
 		return nil, NewError(err)
 	}
-	return NewFloatSlice(f.value[start:stop]), nil
+	// Copy so that the result is independent of this float_slice (like list slices)
+	result := make([]float64, stop-start)
+	copy(result, f.value[start:stop])
+	return NewFloatSlice(result), nil
 }
 
 func (f *FloatSlice) SetItem(key, value Object) *Error {
